@@ -258,7 +258,7 @@ func (pm *pathManager) doReloadConf(newPaths map[string]*conf.Path) {
 			oldPathConf := pm.pathConfs[pa.confName]
 			if pathConfCanBeUpdated(oldPathConf, newPathConf) {
 				pa.confName = newPathConf.Name
-				go pa.reloadConf(newPathConf)
+				pa.reloadConf(newPathConf)
 				continue
 			}
 
@@ -275,7 +275,7 @@ func (pm *pathManager) doReloadConf(newPaths map[string]*conf.Path) {
 
 		// path configuration has changed but can be hot reloaded: reload it
 		if _, ok := confsToReload[newPathConf.Name]; ok {
-			go pa.reloadConf(newPathConf)
+			pa.reloadConf(newPathConf)
 		}
 	}
 
